@@ -207,11 +207,28 @@ Qed.
 Lemma zlen_nat : forall (A : Type) (l : list A), zlen l = Z.of_nat (length l).
 Proof. reflexivity. Qed.
 
-Lemma shorten_length : forall cn idx s, 0 <= cn idx s < 100000 -> zlen (shorten cn idx s) <= 16.
+(* since the repair of F26 for every contig number, whatever its size (and whatever pad5 makes of it) *)
+Lemma shorten_length : forall cn idx s, zlen (shorten cn idx s) <= 16.
 Proof.
-  intros cn idx s H. unfold shorten, zlen. repeat rewrite app_length.
-  rewrite (pad5_length _ H). cbn [length]. pose proof (firstn_le_length 7 s).
-  assert (length (firstn 7 s) <= 7)%nat by (rewrite firstn_length; lia). lia.
+  intros cn idx s. unfold shorten. cbv zeta.
+  destruct (12 <? zlen (pad5 (cn idx s))) eqn:B; unfold zlen in *; repeat rewrite app_length;
+    rewrite firstn_length; cbn [length].
+  - pose proof (Nat.le_min_l 14 (length s)). lia.
+  - apply Z.ltb_ge in B. pose proof (Nat.le_min_l (12 - length (pad5 (cn idx s))) (length s)). lia.
+Qed.
+
+(* the documented shape c<5 digits>_<7 characters>.. is kept for the numbers that fit into five digits *)
+Lemma shorten_ordinary : forall cn idx s, 0 <= cn idx s < 100000 ->
+  shorten cn idx s = [99] ++ pad5 (cn idx s) ++ [95] ++ firstn 7 s ++ [46; 46].
+Proof.
+  intros cn idx s H. unfold shorten. cbv zeta. unfold zlen. rewrite (pad5_length _ H). reflexivity.
+Qed.
+
+(* a larger number is kept in full as long as 16 characters have room for it (up to 12 digits) *)
+Lemma shorten_keeps_number : forall cn idx s, zlen (pad5 (cn idx s)) <= 12 ->
+  exists k, shorten cn idx s = [99] ++ pad5 (cn idx s) ++ [95] ++ firstn k s ++ [46; 46].
+Proof.
+  intros cn idx s H. unfold shorten. cbv zeta. apply Z.ltb_ge in H. rewrite H. eexists. reflexivity.
 Qed.
 
 Lemma filter_len_le : forall (f : Z -> bool) (s : str), (length (filter f s) <= length s)%nat.
@@ -288,16 +305,15 @@ Proof.
 Qed.
 
 Lemma fix_long_id_length : forall cn idx old set id1 set1,
-  0 <= cn idx old < 100000 ->
   fix_long_id cn false idx old set = Ok (id1, set1) -> zlen id1 <= 16.
 Proof.
-  intros cn idx old set id1 set1 Hcn H. unfold fix_long_id in H.
+  intros cn idx old set id1 set1 H. unfold fix_long_id in H.
   destruct ((16 <? zlen old) && negb false) eqn:B.
   - destruct (second_last_is 46 old && (count_char 46 old =? 1) && (zlen (before_char 46 old) <=? 16)
               && negb (smem (before_char 46 old) set)) eqn:C.
     + injection H as H1 H2. subst. lia.
     + destruct (negb (smem (shorten cn idx old) set)) eqn:D; cbn [bind] in H.
-      * injection H as H1 H2. subst. apply shorten_length. exact Hcn.
+      * injection H as H1 H2. subst. apply shorten_length.
       * destruct (gen_name (firstn 12 old) set 16) as [n|k] eqn:G; cbn [bind] in H; [|discriminate].
         injection H as H1 H2. subst. apply gen_name_spec in G. destruct G as [_ [_ G]]. apply G. lia.
   - injection H as H1 H2. subst. cbn [negb] in B. lia.
@@ -331,12 +347,11 @@ Qed.
 Lemma fix_name_clean : forall cn allow idx name, clean (fix_name cn allow idx name).
 Proof. intros. unfold fix_name. apply clean_strip. Qed.
 
-Lemma fix_name_length : forall cn idx name,
-  0 <= cn idx name < 100000 -> zlen (fix_name cn false idx name) <= 16.
+Lemma fix_name_length : forall cn idx name, zlen (fix_name cn false idx name) <= 16.
 Proof.
-  intros cn idx name Hcn. unfold fix_name.
+  intros cn idx name. unfold fix_name.
   destruct ((16 <? zlen name) && negb false) eqn:B.
-  - pose proof (strip_length (shorten cn idx name)). pose proof (shorten_length cn idx name Hcn). lia.
+  - pose proof (strip_length (shorten cn idx name)). pose proof (shorten_length cn idx name). lia.
   - pose proof (strip_length name). cbn [negb] in B. lia.
 Qed.
 
@@ -347,8 +362,7 @@ Lemma fix_record_spec : forall cn allow r set r' set',
   (In (r_id r) set -> (r_id r' = r_id r \/ ~ In (r_id r') set) /\ incl set set' /\ In (r_id r') set') /\
   r_orig r' = fix_orig (r_orig r) (r_id r) (r_id r') /\
   r_idx r' = r_idx r /\
-  (allow = false -> (0 <= cn (r_idx r) (r_id r) < 100000 -> zlen (r_id r') <= 16) /\
-                    (0 <= cn (r_idx r) (r_name r) < 100000 -> zlen (r_name r') <= 16)).
+  (allow = false -> zlen (r_id r') <= 16 /\ zlen (r_name r') <= 16).
 Proof.
   intros cn allow r set r' set' H. unfold fix_record_name_id in H.
   destruct (fix_long_id cn allow (r_idx r) (r_id r) set) as [[id1 set1]|k] eqn:L; cbn [bind] in H; [|discriminate].
@@ -369,9 +383,9 @@ Proof.
       * right. intro Hc. apply E1. now apply A2.
       * intros x Hx. apply sadd_In. right. now apply A2.
       * apply sadd_self.
-  - intros Ha. subst allow. split; intro Hcn.
+  - intros Ha. subst allow. split.
     + apply HS3; [reflexivity|]. eapply fix_long_id_length; eassumption.
-    + apply fix_name_length. assumption.
+    + apply fix_name_length.
 Qed.
 
 (* ---------- fix_all ---------- *)
@@ -400,17 +414,15 @@ Proof.
 Qed.
 
 Lemma fix_all_short : forall cn recs set outs,
-  (forall i s, 0 <= cn i s < 100000) ->
   fix_all cn false recs set = Ok outs -> Forall (fun o => zlen (r_id o) <= 16 /\ zlen (r_name o) <= 16) outs.
 Proof.
-  intros cn recs set outs Hcn. revert set outs.
+  intros cn recs set outs. revert set outs.
   induction recs as [|r rest IH]; intros set outs H; cbn [fix_all] in H.
   - injection H as H. subst. constructor.
   - destruct (fix_record_name_id cn false r set) as [[r' set']|k] eqn:F; cbn [bind] in H; [|discriminate].
     destruct (fix_all cn false rest set') as [rs|k] eqn:A; cbn [bind] in H; [|discriminate].
     injection H as H. subst. constructor.
-    + apply fix_record_spec in F. destruct F as [_ [_ [_ [_ [_ F]]]]]. specialize (F eq_refl).
-      destruct F as [F1 F2]. split; [apply F1 | apply F2]; apply Hcn.
+    + apply fix_record_spec in F. destruct F as [_ [_ [_ [_ [_ F]]]]]. exact (F eq_refl).
     + eapply IH. eassumption.
 Qed.
 
@@ -615,11 +627,10 @@ Proof.
 Qed.
 
 Lemma pipeline_short : forall cn l outs,
-  (forall i s, 0 <= cn i s < 100000) ->
   pipeline cn false l = Ok outs ->
   Forall (fun o => zlen (r_id o) <= 16 /\ zlen (r_name o) <= 16) outs.
 Proof.
-  intros cn l outs Hcn H. apply pipeline_inv in H. destruct H as [recs [set [_ [F _]]]].
+  intros cn l outs H. apply pipeline_inv in H. destruct H as [recs [set [_ [F _]]]].
   eapply fix_all_short; eassumption.
 Qed.
 
@@ -662,9 +673,7 @@ Proof.
 Qed.
 
 Lemma fix_record_length_local : forall cn r set r' set',
-  fix_record_name_id cn false r set = Ok (r', set') ->
-  (0 <= cn (r_idx r) (r_id r) < 100000 -> zlen (r_id r') <= 16) /\
-  (0 <= cn (r_idx r) (r_name r) < 100000 -> zlen (r_name r') <= 16).
+  fix_record_name_id cn false r set = Ok (r', set') -> zlen (r_id r') <= 16 /\ zlen (r_name r') <= 16.
 Proof.
   intros cn r set r' set' H. apply fix_record_spec in H. destruct H as [_ [_ [_ [_ [_ H]]]]]. now apply H.
 Qed.
@@ -706,15 +715,14 @@ Qed.
 
 Lemma pipeline_meets_spec : forall cn allow l outs,
   Forall (fun p => fst p <> []) l ->
-  (allow = false -> forall i s, 0 <= cn i s < 100000) ->
   pipeline cn allow l = Ok outs -> spec_ok allow l outs = true.
 Proof.
-  intros cn allow l outs Hne Hcn H. unfold spec_ok. repeat (apply andb_true_iff; split).
+  intros cn allow l outs Hne H. unfold spec_ok. repeat (apply andb_true_iff; split).
   - unfold spec_unique. apply distinct_NoDup. eapply pipeline_unique. eassumption.
   - unfold spec_safe. apply forallb_forall. intros o Ho. pose proof (pipeline_clean _ _ _ _ H) as C.
     rewrite Forall_forall in C. destruct (C o Ho) as [C1 C2]. apply andb_true_iff. split; now apply clean_safe.
   - unfold spec_short. destruct allow; [reflexivity|]. cbn [orb]. apply forallb_forall. intros o Ho.
-    pose proof (pipeline_short _ _ _ (Hcn eq_refl) H) as S. rewrite Forall_forall in S. specialize (S o Ho). lia.
+    pose proof (pipeline_short _ _ _ H) as S. rewrite Forall_forall in S. specialize (S o Ho). lia.
   - apply remembers_orig_ok. eapply pipeline_original; eassumption.
   - unfold spec_named. apply pipeline_inv in H. destruct H as [_ [_ [_ [_ N]]]]. exact N.
 Qed.
@@ -749,14 +757,16 @@ Proof.
     specialize (Hn o Hin). unfold nonempty_id in Hn. destruct (r_id o); [discriminate | discriminate].
 Qed.
 
-(* the unguarded length clause is false: the recorded finding contig_number_overflow *)
-Lemma length_unguarded_refuted :
-  exists l outs, pipeline contig_no false l = Ok outs /\ Exists (fun o => 16 < zlen (r_id o)) outs.
-Proof.
-  exists [([109; 121; 32; 99; 111; 110; 116; 105; 103; 49; 50; 51; 52; 53; 54; 55; 32; 111; 102; 32; 97; 32; 108; 111;
-            110; 103; 32; 110; 97; 109; 101], [110])].
-  eexists. split; [vm_compute; reflexivity|]. constructor. vm_compute. reflexivity.
-Qed.
+(* the witness of the repaired finding contig_number_overflow: a seven digit contig number now gives a
+   15 character id that still carries the whole number *)
+Lemma overflow_witness_repaired :
+  pipeline contig_no false
+    [([109; 121; 32; 99; 111; 110; 116; 105; 103; 49; 50; 51; 52; 53; 54; 55; 32; 111; 102; 32; 97; 32; 108; 111;
+       110; 103; 32; 110; 97; 109; 101], [110])]
+  = Ok [mkRec [99; 49; 50; 51; 52; 53; 54; 55; 95; 109; 121; 99; 111; 46; 46] [110]
+              (Some [109; 121; 32; 99; 111; 110; 116; 105; 103; 49; 50; 51; 52; 53; 54; 55; 32; 111; 102; 32; 97; 32;
+                     108; 111; 110; 103; 32; 110; 97; 109; 101]) 1].
+Proof. vm_compute. reflexivity. Qed.
 
 (* ---------- _sanitise_id_value ---------- *)
 Lemma sanitise_spec : forall s,
